@@ -132,7 +132,12 @@ def run_case(case, acc):
     chunks_in = INPUTS[name] if name in INPUTS else THOROUGH_INPUTS[name]
     data = b''.join(chunks_in)
     out = []
-    sink = run([mod.compress()], chunks_in)
+    def same_content(a, b):          # two compressions of the same data may differ in bytes (header fields), not in content
+        try:
+            return ref_decode(codec, b''.join(a)) == ref_decode(codec, b''.join(b))
+        except Exception:
+            return False
+    sink = run([mod.compress()], chunks_in, same=same_content)
     acc.evals += 1
     acc.events += len(chunks_in) + 1
     if sink.error is not None or sink.completed != 1:
